@@ -441,9 +441,11 @@ def model_export_to_file(f, model=None, repo=None):
     Returns:
         Nothing
     """
-    if not model and not repo:
+    # A model may be falsy (e.g. a user class with __len__ for the root rule
+    # and a model without elements), hence the tests for None.
+    if model is None and not repo:
         raise Exception("specify either a model or a repo")
-    if model and repo:
+    if model is not None and repo:
         raise Exception("specify either a model or a repo")
 
     processed_set = set()
